@@ -101,3 +101,89 @@ fn c13g_canary() {
     assert!(bone.translation.timestamps.count == 0, "canary: must be violated (reachability witness)");
     std::mem::forget((bone, map));
 }
+
+// ------------------------------------------------------------------ cameras and lights (M2AnimationBlock: ranges, time stamps, values)
+use crate::chunks::animation::M2AnimationBlock;
+use crate::chunks::camera::M2Camera;
+use crate::chunks::light::{M2Light, M2LightType};
+use crate::common::M2Parse;
+
+fn sym_block<T: M2Parse + Default + Clone>() -> M2AnimationBlock<T> {
+    let mut b = M2AnimationBlock::<T>::default();
+    b.track.interpolation_ranges = M2Array::new(kani::any(), kani::any());
+    b.track.timestamps = M2Array::new(kani::any(), kani::any());
+    b.track.values.array = M2Array::new(kani::any(), kani::any());
+    b
+}
+
+fn bshape<T: M2Parse>(b: &M2AnimationBlock<T>) -> [(u32, u32); 3] {
+    let t = &b.track;
+    [(t.interpolation_ranges.count, t.interpolation_ranges.offset), (t.timestamps.count, t.timestamps.offset),
+     (t.values.array.count, t.values.array.offset)]
+}
+
+/// a block keeps all three arrays (each non-empty one moved to its mapped offset, counts kept) or - when a non-empty
+/// array was not collected - is emptied completely
+fn check_block(before: [(u32, u32); 3], after: [(u32, u32); 3], map: &HashMap<u32, u32>) {
+    let mut lost = false;
+    let mut k = 0;
+    while k < 3 {
+        if before[k].0 != 0 && map.get(&before[k].1).is_none() { lost = true; }
+        k += 1;
+    }
+    if lost {
+        assert!(after[0].0 == 0 && after[1].0 == 0 && after[2].0 == 0,
+            "an animation block whose key-frame data was not collected still refers to it after relocation");
+        return;
+    }
+    let mut k = 0;
+    while k < 3 {
+        assert!(after[k].0 == before[k].0, "relocation changed the number of elements of a collected animation block");
+        if before[k].0 != 0 {
+            assert!(Some(after[k].1) == map.get(&before[k].1).copied(),
+                "an array of a collected animation block is not moved to its new offset (stale offset of the old file)");
+        }
+        k += 1;
+    }
+}
+
+#[kani::proof]
+#[kani::unwind(10)]
+#[kani::stub(std::fmt::format, vio::fmt_stub)]
+fn c13g_camera_relocation() {
+    let mut cam = M2Camera::new(kani::any());
+    cam.position_animation = sym_block();
+    cam.target_position_animation = sym_block();
+    cam.roll_animation = sym_block();
+    let map = sym_map();
+    let before = [bshape(&cam.position_animation), bshape(&cam.target_position_animation), bshape(&cam.roll_animation)];
+    relocate_camera_animation_offsets(&mut cam, &map);
+    kani::cover!(cam.roll_animation.track.values.array.count != 0, "a relocated camera track");
+    check_block(before[0], bshape(&cam.position_animation), &map);
+    check_block(before[1], bshape(&cam.target_position_animation), &map);
+    check_block(before[2], bshape(&cam.roll_animation), &map);
+    std::mem::forget((cam, map));
+}
+
+#[kani::proof]
+#[kani::unwind(10)]
+#[kani::stub(std::fmt::format, vio::fmt_stub)]
+fn c13g_light_relocation() {
+    let mut l = M2Light::new(M2LightType::Point, kani::any(), kani::any());
+    l.ambient_color_animation = sym_block();
+    l.diffuse_color_animation = sym_block();
+    l.attenuation_start_animation = sym_block();
+    l.attenuation_end_animation = sym_block();
+    l.visibility_animation = sym_block();
+    let map = sym_map();
+    let before = [bshape(&l.ambient_color_animation), bshape(&l.diffuse_color_animation), bshape(&l.attenuation_start_animation),
+                  bshape(&l.attenuation_end_animation), bshape(&l.visibility_animation)];
+    relocate_light_animation_offsets(&mut l, &map);
+    kani::cover!(l.attenuation_end_animation.track.timestamps.count != 0, "a relocated light track");
+    check_block(before[0], bshape(&l.ambient_color_animation), &map);
+    check_block(before[1], bshape(&l.diffuse_color_animation), &map);
+    check_block(before[2], bshape(&l.attenuation_start_animation), &map);
+    check_block(before[3], bshape(&l.attenuation_end_animation), &map);
+    check_block(before[4], bshape(&l.visibility_animation), &map);
+    std::mem::forget((l, map));
+}
